@@ -152,6 +152,8 @@ func alphabet(tier string) []string {
 		"rmnode n1", "rmnode n2", "rmnode n3", "rmnode n9", "rmnode -",
 		"rmpipe t1 p1", "rmpipe t1 p2",
 		"rmpipenodes t1 p1", "rmpipenodes t1 p2", "rmpipenodes t1 p9", "rmpipenodes t9 p1", "rmpipenodes - p1", "rmpipenodes t1 -",
+		// the same with an already-cancelled context: whatever the call answers, "false" must mean "nothing happened"
+		"rmpipenodesx t1 p1", "rmnodex n2", "rmnodex n1",
 	}
 	return a
 }
@@ -167,13 +169,14 @@ var harness = &seqmc.Harness{
 	},
 	New: func(tier string, cfg int) seqmc.Instance {
 		r := hn.NewReg(hn.StdKinds())
+		r.FalseIsFailure = true
 		in := &hn.RegInstance{R: r, Types: types, CheckIsAny: true}
 		in.After = func(r *hn.Reg, f []string) string {
 			if !r.LastFailed {
 				return ""
 			}
 			switch f[0] {
-			case "regnode", "regpipe", "rmnode", "rmpipenodes":
+			case "regnode", "regpipe", "rmnode", "rmpipenodes", "rmnodex", "rmpipenodesx":
 			default:
 				return ""
 			}
@@ -224,7 +227,7 @@ func main() {
 			}
 			return r
 		},
-		Rule: "(a) every node-type sequence of length 0..5 over {filter, formatter, sink, formatter-filter, unknown type} (3906) x {all ids registered, one unregistered, one empty} x {pipeline id, event type empty or not} x existing same-id pipeline {none, AllowOverwrite, DenyOverwrite}: RegisterPipeline's verdict compared with the acceptance predicate written from the statement. (b) BFS over all histories up to the depth bound of valid and invalid RegisterNode / RegisterPipeline / RemoveNode / RemovePipeline / RemovePipelineAndNodes calls; after every failing call the projection {probe-Send deliveries per type, RemoveNode outcome per node id, IsAnyPipelineRegistered per type} taken on replayed copies must equal the projection before the call; IsAnyPipelineRegistered is compared with the model after every step.",
+		Rule: "(a) every node-type sequence of length 0..5 over {filter, formatter, sink, formatter-filter, unknown type} (3906) x {all ids registered, one unregistered, one empty} x {pipeline id, event type empty or not} x existing same-id pipeline {none, AllowOverwrite, DenyOverwrite}: RegisterPipeline's verdict compared with the acceptance predicate written from the statement. (b) BFS over all histories up to the depth bound of valid and invalid RegisterNode / RegisterPipeline / RemoveNode / RemovePipeline / RemovePipelineAndNodes calls (the last two also with an already-cancelled context); after every failing call the projection {probe-Send deliveries per type, RemoveNode outcome per node id, IsAnyPipelineRegistered per type} taken on replayed copies must equal the projection before the call; IsAnyPipelineRegistered is compared with the model after every step.",
 		Assumptions: []string{
 			"the empty graph a failed RegisterPipeline may leave behind is not compared (the statement does not speak about it); whether Send to a type without pipelines errors is not compared either",
 			"Close errors are outside this property (C06)",
